@@ -6,7 +6,7 @@
    units (Gen/Shapes.v) hold by-value struct map values made of scalars, strings and bytes only
    (Leaf, Pt): there the per-entry value temporary of the copy emitter has nothing to allocate.
    The units are not part of Shapes.multi: when they were written the Set emitter lost updates
-   below a by-value map entry (C03's finding nested_in_map_entry, fixed since by 2f8b339) and the
+   below a by-value map entry (C03's finding nested_in_map_entry, fixed since by e955906) and the
    shared units had to stay inside C03's sound fragment.
 
    Values: the variants of Gen/EnumVal.v put the struct variants 0..2 into map entries (pointers set,
